@@ -195,3 +195,28 @@ Definition ex_revision : revision :=
      v_extra_headers := [(bs "gpgsig", [45; 10; 32; 10; 10]); (bs "x", [])]; v_raw_manifest := None |}.
 Example ex_revision_ok : revision_valid ex_revision = true /\ wf_extra (effective_extra ex_revision) = true.
 Proof. split; vm_compute; reflexivity. Qed.
+
+(* ---- dimensions added by the audit: raw manifest, both routes at once ---- *)
+(* a verbatim raw manifest takes precedence over the fields for the id (and only for the id:
+   rev_manifest never reads it), whatever its bytes - the empty byte string included *)
+Theorem rev_raw_manifest_precedence : forall (H : bytes -> bytes) r m,
+  v_raw_manifest r = Some m -> rev_compute_hash H r = H m.
+Proof. intros H r m R. unfold rev_compute_hash. rewrite R. reflexivity. Qed.
+
+(* extra headers given BOTH as the attribute and inside legacy metadata: the attribute
+   decides, and construction leaves the object (metadata key included) as it is *)
+Theorem extra_attribute_wins : forall r, v_extra_headers r <> [] ->
+  effective_extra r = v_extra_headers r /\ post_init r = r.
+Proof.
+  intros r N. unfold effective_extra, post_init.
+  destruct (v_extra_headers r) as [|h hs] eqn:E; [congruence|]. split; reflexivity.
+Qed.
+
+Definition ex_both : revision :=
+  {| v_message := None; v_author := None; v_committer := None; v_date := None; v_committer_date := None;
+     v_type := RtGit; v_directory := repeat 1 20; v_synthetic := false;
+     v_meta_extra := Some [(bs "mergetag", [1])]; v_meta_other := [];
+     v_parents := []; v_extra_headers := [(bs "gpgsig", [2])]; v_raw_manifest := Some [] |}.
+Example ex_both_ok : v_extra_headers ex_both <> [] /\ effective_extra ex_both = [(bs "gpgsig", [2])] /\
+  rev_compute_hash (fun b => 7 :: b) ex_both = [7].
+Proof. repeat split; vm_compute; congruence. Qed.
